@@ -275,7 +275,55 @@ def w_post(case):
             'violations': viol}
 
 
-WORKERS = {'posterior': w_post, 'wrapped': w_post}
+def _sbml_posterior(case):
+    import chi.library
+    m = chi.library.ModelLibrary().one_compartment_pk_model()
+    m.set_administration('central', direct=case['direct'])
+    m.set_dosing_regimen(2.0, start=0.3, duration=0.4, period=1.0, num=2)
+    n_dim = m.n_parameters()
+    spec = rp.Comp([rp.LN(1), rp.P(1), rp.LN(n_dim - 2)])
+    pop = popbuild.build(spec, None)
+    y = np.array([[[0.9, 1.4, 0.7]], [[1.2, 1.1, 0.5]], [[0.8, 1.6, 0.9]]])
+    n_top = rp.n_top(spec, 3) + (0 if case['sigma_fixed'] else 1)
+    prior = hier.build_prior(n_top)
+    post = chi.PopulationFilterLogPosterior(
+        chi.GaussianFilter(y), [0.5, 1.2, 2.1], m, pop, prior,
+        sigma=[0.3] if case['sigma_fixed'] else None,
+        error_on_log_scale=case['log_scale'], n_samples=3)
+    return post
+
+
+def w_sbml_post(case):
+    """Filter posterior around a dosed SBML model: the value is the same number
+    before and after evaluations with sensitivities, in every order of calls."""
+    viol = []
+    fresh = _sbml_posterior(case)
+    n = fresh.n_parameters()
+    x = np.array(vals.reals('c13.sb', n, 0.3, 0.9, case['seed']))
+    ref = fresh(x.copy())
+    post = _sbml_posterior(case)
+    got = []
+    for op in case['ops']:
+        if op == 'call':
+            got.append(post(x.copy()))
+        else:
+            got.append(post.evaluateS1(x.copy())[0])
+    if not np.isfinite(ref):
+        viol.append({'sub': 'sbml_finite', 'message': 'filter posterior around a '
+                     'dosed SBML model is not finite at a support point',
+                     'expected': 'finite', 'observed': ref,
+                     'behaviour': 'sbml_finite'})
+    elif not all(tol.close(g, ref, tol.ODE_REL, tol.ODE_ABS) for g in got):
+        viol.append({'sub': 'sbml_history', 'message': 'filter posterior around a '
+                     'dosed SBML model: the score after the call history %s differs '
+                     'from the first evaluation of a fresh posterior'
+                     % case['ops'], 'expected': ref, 'observed': got,
+                     'behaviour': 'sbml_history'})
+    return {'transitions': len(case['ops']) + 3, 'outcome': tol.rnd(ref, 6),
+            'violations': viol}
+
+
+WORKERS = {'posterior': w_post, 'wrapped': w_post, 'sbml': w_sbml_post}
 
 
 def make_case(spec, filt, sigma_free, log_scale, ns, times, n_obs, seed,
@@ -304,13 +352,14 @@ def make_case(spec, filt, sigma_free, log_scale, ns, times, n_obs, seed,
 
 
 def build(tier, seed):
-    kinds = ['G', 'Gnc', 'LNnc', 'P', 'H', 'Cov(G)'] if tier == 'quick' else \
-        ['G', 'Gnc', 'LN', 'LNnc', 'TG', 'P', 'H', 'Cov(G)', 'Cov(LNnc)']
+    # (every class in both tiers)
+    kinds = ['G', 'Gnc', 'LN', 'LNnc', 'TG', 'P', 'H', 'Cov(G)', 'Cov(LNnc)']
     structs = hier.structures(N_DIM, kinds)
     t3 = sorted(vals.reals('c13.t', 3, 0.2, 3.0, seed))
     perms = [list(p) for p in itertools.permutations(range(3))]
-    filters = [('G', 2), ('GKDE', 2)] if tier == 'quick' else \
-        [('G', 2), ('GKDE', 2), ('LN', 2), ('LNKDE', 2), ('GM', 2)]
+    # (every filter kind in both tiers: the mixture and log-scale kernels take their
+    # own paths through the noise sensitivities)
+    filters = [('G', 2), ('GKDE', 2), ('LN', 2), ('LNKDE', 2), ('GM', 2)]
     # composed filters over the (original) time axis: 1+2, 2+1 and 1+1+1 blocks
     filters = filters + [
         [('G', 1, 2), ('GKDE', 2, 2)], [('GKDE', 2, 2), ('LN', 1, 2)],
@@ -339,7 +388,10 @@ def build(tier, seed):
              rp.Comp([rp.P(1), rp.G(1), rp.H(1)]),
              rp.Comp([rp.G(1, False), rp.P(1), rp.LN(1, False)]),
              rp.Comp([rp.H(1), rp.Cov(rp.G(1)), rp.P(1)]),
-             rp.Comp([rp.LN(2, False), rp.P(1)]), rp.P(3), rp.H(3), rp.G(3, False)]
+             rp.Comp([rp.LN(2, False), rp.P(1)]), rp.P(3), rp.H(3), rp.G(3, False),
+             # covariate models over several dimensions AND several covariates
+             rp.Comp([rp.Cov(rp.G(2), 2), rp.P(1)]),
+             rp.Comp([rp.G(1), rp.Cov(rp.LN(2, False), 2)]), rp.Cov(rp.G(3), 2)]
     for spec in focus:
         for filt in filters:
             for sigma_free in (False, True):
@@ -385,8 +437,20 @@ def build(tier, seed):
         for sigma_free in (False, True):
             wrapped.append(make_case(spec, ('GKDE', 2), sigma_free, False, 3,
                                      [t3[1], t3[0], t3[2]], 1, seed))
+    sb = []
+    for direct in (True, False):
+        for sf in (True, False):
+            for log_scale in (False, True):
+                for ops in itertools.product(['call', 'S1'], repeat=3):
+                    sb.append({'direct': direct, 'sigma_fixed': sf,
+                               'log_scale': log_scale, 'ops': list(ops),
+                               'seed': seed})
     return {
-        'parts': [Part('wrapped', wrapped, w_post,
+        'parts': [Part('sbml', sb, w_sbml_post,
+                       'filter posterior around the dosed library model (direct / '
+                       'indirect route): every history of three evaluations with / '
+                       'without sensitivities'),
+                  Part('wrapped', wrapped, w_post,
                        'reduced and covariate-around-pooled population models'),
                   Part('posterior', cases, w_post,
                        'population structure x sigma fixed/free x noise scale, '
